@@ -27,7 +27,7 @@ const STATIC: [&str; 20] = [
 ];
 const VDC: [&str; 6] = ["vd_digest", "vd_cap_one", "vd_cap_all", "vd_other", "vd_other_cap", "vd_other_digest"];
 
-fn run_shape<OC: GenericConfig<D, F = F>>(s: &Value, selftest: bool) -> Vec<Value> {
+fn run_shape<OC: GenericConfig<D, F = F>>(s: &Value, selftest_all: bool) -> Vec<Value> {
     let id = s["id"].as_str().unwrap_or("?").to_string();
     let mut out = vec![];
     let skip = |why: String| vec![json!({"id": id, "skipped": why})];
@@ -102,7 +102,16 @@ fn run_shape<OC: GenericConfig<D, F = F>>(s: &Value, selftest: bool) -> Vec<Valu
     let nch = common.config.num_challenges;
     let mut sampled = 0usize;
     let mut unsat_sampled = 0usize;
-    for class in &classes {
+    // binding self-test (scenario field "selftest"): one extra pass over class final_poly in which the circuit is
+    // shown the untampered proof while the native verdict is the tampered one's; rows carry "selftest": true
+    let passes: Vec<(bool, Vec<String>)> = if s["selftest"].as_bool().unwrap_or(false) {
+        vec![(selftest_all, classes.clone()), (true, vec!["final_poly".to_string()])]
+    } else {
+        vec![(selftest_all, classes.clone())]
+    };
+    for (selftest, classes) in &passes {
+    let selftest = *selftest;
+    for class in classes {
         // the concrete cases of this class: (proof, verifier data, description)
         let mut cases: Vec<(PW, VD, Value)> = vec![];
         let c = class.as_str();
@@ -156,10 +165,10 @@ fn run_shape<OC: GenericConfig<D, F = F>>(s: &Value, selftest: bool) -> Vec<Valu
             });
             let mut row = json!({"id": id, "class": class, "inst": inst, "desc": desc, "changed": changed,
                 "native": nat, "native_detail": ndetail, "assignable": cv.assignable, "circuit": cv.accepted,
-                "stage": cv.stage, "detail": cv.detail});
+                "stage": cv.stage, "detail": cv.detail, "selftest": selftest});
             // outer prove + verify on a sample: accepted cases must yield a verifying outer proof
             // carrying the inner public inputs; satisfiable-looking rejected ones must not
-            let want_outer = (cv.accepted && sampled < sample) || (cv.stage == "oracle_unsat" && unsat_sampled < 1);
+            let want_outer = !selftest && ((cv.accepted && sampled < sample) || (cv.stage == "oracle_unsat" && unsat_sampled < 1));
             if want_outer {
                 if cv.accepted {
                     sampled += 1;
@@ -176,6 +185,7 @@ fn run_shape<OC: GenericConfig<D, F = F>>(s: &Value, selftest: bool) -> Vec<Valu
             }
             out.push(row);
         }
+    }
     }
     out
 }
